@@ -110,7 +110,7 @@ def run_cond(shard, ctx):
     from . import _affine
 
     for vi, ctor in [(v, c) for v in vis for c in _affine.ctors_for(kind)]:
-        if ctor != "Sigma" and vi != 0:
+        if ctor != "Sigma" and vi not in (0, 100):
             continue
         for Rq in BOUNDS[tier]["R"][:3]:
             for Rc in sorted({1, Rq}) if kind in ("full", "diag") else (1,):
